@@ -7,6 +7,7 @@ import (
 )
 
 func tryRenameFile(from string, to string) error {
+	_ = verifStep("rename")
 	if renameError := os.Rename(from, to); renameError != nil {
 		log.Debugf("Error renaming from %v to %v, attempting to copy contents", from, to)
 		log.Debug(renameError.Error())
@@ -23,6 +24,7 @@ func tryRenameFile(from string, to string) error {
 
 func tryRemoveTempFile(filename string) {
 	log.Debug("Removing temp file: %v", filename)
+	_ = verifStep("temp.remove")
 	removeErr := os.Remove(filename)
 	if removeErr != nil {
 		log.Errorf("Failed to remove temp file: %v", filename)
@@ -34,17 +36,29 @@ func copyFileContents(src, dst string) (err error) {
 	// ignore CWE-22 gosec issue - that's more targeted for http based apps that run in a public directory,
 	// and ensuring that it's not possible to give a path to a file outside thar directory.
 
+	if err = verifStep("copy.open_src"); err != nil {
+		return err
+	}
 	in, err := os.Open(src) // #nosec
 	if err != nil {
 		return err
 	}
 	defer safelyCloseFile(in)
+	if err = verifStep("copy.create_dst"); err != nil {
+		return err
+	}
 	out, err := os.Create(dst) // #nosec
 	if err != nil {
 		return err
 	}
 	defer safelyCloseFile(out)
+	if err = verifCopyStep(out, in); err != nil {
+		return err
+	}
 	if _, err = io.Copy(out, in); err != nil {
+		return err
+	}
+	if err = verifStep("copy.sync"); err != nil {
 		return err
 	}
 	return out.Sync()
@@ -66,6 +80,9 @@ func safelyCloseFile(file *os.File) {
 }
 
 func createTempFile() (*os.File, error) {
+	if err := verifStep("tmpdir.stat"); err != nil {
+		return nil, err
+	}
 	_, err := os.Stat(os.TempDir())
 	if os.IsNotExist(err) {
 		err = os.Mkdir(os.TempDir(), 0700)
@@ -76,6 +93,9 @@ func createTempFile() (*os.File, error) {
 		return nil, err
 	}
 
+	if err := verifStep("temp.create"); err != nil {
+		return nil, err
+	}
 	file, err := os.CreateTemp("", "temp")
 	if err != nil {
 		return nil, err
